@@ -274,7 +274,15 @@ impl XFuncSpec {
     }
 
     pub(crate) fn rtype(&self, bind: &Bind) -> Arc<XType> {
-        self.ret.clone().resolve_bind(bind, None)
+        // a generic parameter that no argument determined (`[][0]`) is the bottom type in the result, it must
+        // not leave the function as a free type variable
+        let mut bind = bind.clone();
+        for name in self.generic_params.iter().flatten() {
+            if bind.get(name).is_none() {
+                bind.bound_generics.insert(*name, X_UNKNOWN.clone());
+            }
+        }
+        self.ret.clone().resolve_bind(&bind, None)
     }
 
     pub(crate) fn xtype(&self) -> Arc<XType> {
